@@ -947,8 +947,10 @@ package logqlengine
 //@   ensures[a-template-of-its-own] nw_called && op_called && op_recv == nw_r0 && fu_recv == op_r0 && ps_called && ps_recv == fu_r0
 //@   ensures[parsed-from-this-text] ps_a0 == tmpl && ret0 == ps_r0 && ret1 == ps_r1
 //@ func tmplFunctions
-//@   trusted
 //@   modifies nothing
+//@   loop 0 modifies funcMap[*]
+//@   loop 0 invariant funcMap != nil
+//@   ensures[line-and-time-readers-installed] has(ret0, "__line__") && has(ret0, "__timestamp__")
 //@   ensures ret0 != nil
 //@ func getTemplateBuffer
 //@   trusted
